@@ -269,3 +269,24 @@ def sample_summary(spec):
     if "real" not in spec:
         d.update(n_atoms=len(spec["elements"]), pattern=spec["pattern"], cell=spec["cell"], planted=spec["planted"])
     return d
+
+
+def _probe_hint_dependence_on_strained_matches():
+    """Deterministic probe of the listed finding: tests/uio66/uio66-triclinic.lmpdat + linker at atol=0.2 finds 6 linkers
+    without hints (each within 0.115 A of the pattern under the best rigid fit) but fewer with the valid hint triple (14, 12, 9)."""
+    import io
+    import sys
+    from mofun import Atoms, find_pattern_in_structure
+    old = sys.stdout, sys.stderr
+    sys.stdout, sys.stderr = io.StringIO(), io.StringIO()
+    try:
+        S = Atoms.load(os.path.join(REPO_DIR, "tests/uio66/uio66-triclinic.lmpdat"), atom_format="full")
+        P = Atoms.load(os.path.join(REPO_DIR, "tests/uio66/uio66-linker.cml"))
+        a = find_pattern_in_structure(S, P, atol=0.2)
+        b = find_pattern_in_structure(S, P, atol=0.2, axisp1_idx=14, axisp2_idx=12, opoint_idx=9)
+    finally:
+        sys.stdout, sys.stderr = old
+    return len(a) == 6 and len(b) != 6
+
+
+known_finding_probes = {"hints-change-result-for-strained-matches": _probe_hint_dependence_on_strained_matches}
